@@ -42,6 +42,7 @@ import (
 	"verifharness/bpfvm"
 	"verifharness/polcase"
 	"verifharness/polsnap"
+	"verifharness/probe"
 )
 
 type failure struct {
@@ -72,6 +73,7 @@ type summary struct {
 	WholeTable            int            `json:"whole_table_compilations"`
 	OtherDomain           int            `json:"compilations_under_PER_LINUX32"`
 	Jailed                bool           `json:"process_without_a_file_system"`
+	Blocked               bool           `json:"process_whose_seccomp_call_is_answered_ENOSYS"`
 	Accepted              int            `json:"accepted"`
 	Rejected              int            `json:"rejected"`
 	Events                int            `json:"events"`
@@ -683,6 +685,7 @@ func main() {
 	concs := flag.Int("concs", 3, "concretisations per case")
 	expand := flag.Int("expand", 3, "members run per event class (0 = all)")
 	replay := flag.String("replay", "", "replay one failure record")
+	block := flag.Bool("blockseccomp", false, "before the first compilation, put every thread under an enclosing filter that answers seccomp(2) with ENOSYS (a container profile, a kernel before 3.17)")
 	jail := flag.String("jail", "", "change the root of the process to this (empty) directory before the first compilation: no /proc, no /sys, no /etc")
 	flag.Parse()
 	rng := rand.New(rand.NewSource(*seed))
@@ -712,6 +715,17 @@ func main() {
 			fmt.Fprintln(os.Stderr, err)
 			os.Exit(2)
 		}
+	}
+	if *block {
+		if runtime.GOARCH != "amd64" {
+			fmt.Fprintln(os.Stderr, "-blockseccomp needs amd64")
+			os.Exit(2)
+		}
+		if err := probe.BlockSeccompAllThreads(); err != nil {
+			fmt.Fprintln(os.Stderr, "blockseccomp:", err)
+			os.Exit(2)
+		}
+		sum.Blocked = true
 	}
 	if *jail != "" {
 		// What a policy compiles to is a function of the policy: not of what the process can read about the machine it runs on.
